@@ -499,10 +499,25 @@ class RawAlgorithmsMixIn:
             elif r == 2:
                 return cls._square(x_data, out=y_data)
 
-            elif r >= 3:
+            elif r >= 3 and r <= 64:
                 y_data[...] = x_data[...]
                 for nr in range(r-1):
                     cls._mul(x_data, y_data, y_data)
+                return
+
+            elif r > 64:
+                # large exponents (also python ints beyond 64 bits): square and
+                # multiply, O(log r) products, still without division
+                base = x_data.copy()
+                y_data[...] = 0.
+                y_data[0, ...] = 1.
+                e = r
+                while e > 0:
+                    if e & 1:
+                        cls._mul(base, y_data.copy(), y_data)
+                    e >>= 1
+                    if e > 0:
+                        cls._mul(base, base.copy(), base)
                 return
 
             else:
